@@ -31,10 +31,12 @@ def main():
             'replay_cmd_template': './check %s --replay {path}' % cid,
             'engine': 'hxmon',
             'level_claimed': {'category': c.LEVEL,
-                              'text': getattr(c, 'LEVEL_TEXT', '') or ('Held on the executions listed in the evidence file: ' + c.RULE),
+                              'text': getattr(c, 'LEVEL_TEXT', '') or ('Runtime monitoring decides the executions it produces: exploration-level assurance (seeded hostile workloads plus the exhaustive '
+                                                                   'sub-spaces named in the evidence), with a deterministic oracle over what the monitors observed. Held on the executions listed '
+                                                                   'in the evidence file: ' + c.RULE),
                               'design_ref': 'DESIGN.md 3.%s' % cid},
             'level_note': getattr(c, 'LEVEL_NOTE', '') or ('Trusted base: CPython 3.12, ply, dateutil, icontract, fractions/datetime, and the '
-                                                          'reference models under hxmon/models. ' + ' '.join(c.ASSUMPTIONS)),
+                                                          'reference models under hxmon/models. Scope guards: ' + '; '.join(c.ASSUMPTIONS) + '.'),
             'technique': c.TECHNIQUE,
         })
     man = {
